@@ -122,6 +122,8 @@ type Enc struct {
 	curIterHeap string
 	curHeap     map[string]string
 	curLemma    string
+	curCallArgs []ssa.Value
+	assertDone  map[*AssertAt]bool
 	protected   map[*loopInfo][]*ssa.Range
 	lemmasUsed  map[string]bool
 	top         *frame
@@ -302,6 +304,9 @@ func (e *Enc) inFrame(c *Comp) bool {
 func (e *Enc) frameComps(c *Contract, f *ssa.Function) []string {
 	var out []string
 	for _, m := range c.Modifies {
+		if strings.HasPrefix(m, "onlyfresh(") {
+			continue
+		}
 		if i := strings.Index(m, "@"); i >= 0 {
 			m = strings.TrimSpace(m[:i]) // own frame: component granularity
 		}
